@@ -93,3 +93,12 @@ Definition replay (sp : spec) (d : frame) (nrows : nat) (caller : list nat) : (l
       end
     end
   end.
+
+(* ---------- the data-mismatch warning of encode_contrasts ---------- *)
+(* the values of a categorical-at-fit factor that are not among its recorded levels (a DataMismatchWarning is issued iff there is one) *)
+Definition unseen_in (sp : spec) (d : frame) : list (str * str) :=
+  flat_map (fun kv => match snd kv, lookup d (fst kv) with
+                      | KCat lvs, Some (CCat v _) => map (fun s => (fst kv, s)) (filter (fun s => negb (mem_s s lvs)) (somes v))
+                      | _, _ => []
+                      end) (sp_enc sp).
+Definition warns (sp : spec) (d : frame) : bool := match unseen_in sp d with [] => false | _ => true end.
